@@ -134,6 +134,64 @@ fn drain_indexes<I: Iterator, F: Fn(I::Item) -> Vec<usize>>(mut it: I, f: F) -> 
     log
 }
 
+/// The cells in iteration order, consumed through `next()` (kind 0 of ADAPT) or through an Iterator method the
+/// array's iterator may override, then drained by `next()` (same kinds as `drain_indexes`).
+fn drain_vals<'a, I: Iterator<Item = &'a i64>>(it: I) -> Vec<i64> {
+    fn rest<'a, J: Iterator<Item = &'a i64>>(it: J, v: &mut Vec<i64>) {
+        let mut n = 0;
+        let mut it = it;
+        while let Some(x) = it.next() {
+            v.push(*x);
+            n += 1;
+            if n > CAP {
+                v.push(RUNAWAY);
+                return;
+            }
+        }
+        if ADAPT.with(|a| a.get()).0 != 0 {
+            v.push(END);
+            v.push(if it.next().is_none() { 1 } else { 0 });
+        }
+    }
+    let mut it = it;
+    let mut v = Vec::new();
+    let (kind, k) = ADAPT.with(|a| a.get());
+    match kind {
+        0 => rest(it, &mut v),
+        1 => {
+            match it.nth(k) {
+                Some(x) => v.push(*x),
+                None => v.push(END),
+            }
+            rest(it, &mut v)
+        }
+        2 => rest(it.skip(k), &mut v),
+        3 => rest(it.step_by(k.max(1)), &mut v),
+        4 => v.push(it.take(CAP + 1).count() as i64),
+        5 => match it.take(CAP + 1).last() {
+            Some(x) => v.push(*x),
+            None => v.push(END),
+        },
+        6 => {
+            let (lo, hi) = it.size_hint();
+            v.push(lo.min(1 << 40) as i64);
+            v.push(hi.map(|h| h.min(1 << 40) as i64).unwrap_or(-1));
+            rest(it, &mut v)
+        }
+        7 => {
+            for _ in 0..k {
+                it.next();
+            }
+            v.extend(it.take(CAP + 1).fold(Vec::new(), |mut acc, x| {
+                acc.push(*x);
+                acc
+            }))
+        }
+        _ => v.push(RUNAWAY),
+    }
+    v
+}
+
 macro_rules! common_dyn {
     () => {
         fn clone_box(&self) -> Box<dyn ArrDyn> {
@@ -149,14 +207,7 @@ macro_rules! common_dyn {
             self
         }
         fn iter_vals(&self) -> Vec<i64> {
-            let mut v = Vec::new();
-            for x in self.into_iter().take(CAP + 1) {
-                v.push(*x);
-            }
-            if v.len() > CAP {
-                v.push(RUNAWAY);
-            }
-            v
+            drain_vals(self.into_iter())
         }
     };
 }
@@ -786,7 +837,20 @@ pub fn run(c: &Case) -> String {
         Some(ct) => ct,
         None => return format!("BAD no array instantiation for family {} dims {:?}", c.fam, c.dims),
     };
-    let res = if c.op == "arr_adapt" {
+    let res = if c.op == "arr_iter_adapt" {
+        // numbers: a b c d (cells = a k0 + b k1 + c k2 + d), kind, k
+        if code.len() != 6 {
+            return "BAD arr_iter_adapt takes six numbers".into();
+        }
+        let arr = match guarded(|| (ct.from_fn)(code[0], code[1], code[2], code[3])) {
+            Some(a) => a,
+            None => return "OK ffffffffffffffff".into(),
+        };
+        ADAPT.with(|a| a.set((code[4], code[5].max(0) as usize)));
+        let r = guarded(|| arr.iter_vals());
+        ADAPT.with(|a| a.set((0, 0)));
+        Ok(r.unwrap_or_else(|| vec![PANIC]))
+    } else if c.op == "arr_adapt" {
         // numbers: kind, k (see drain_indexes)
         if code.len() != 2 {
             return "BAD arr_adapt takes two numbers".into();
